@@ -3,6 +3,7 @@ package scen
 
 import (
 	"fmt"
+	"sync"
 
 	"github.com/bytom/bytom/protocol/bc/types"
 
@@ -43,11 +44,72 @@ func BestName(nd *labnet.Node) string {
 	return W.Name(best.Hash())
 }
 
+// Blocks the harness handed to ProcessBlock stay "held" by their caller, as a peer manager holds a block it relays
+// after processing: once the call has returned nobody else may write to the object. Each held block is kept with
+// its serialisation at return time; CheckHeld compares again at the end of the execution, relayCall re-serialises
+// the held blocks concurrently with the other threads (for the free-running race pass).
+type held struct {
+	b   *types.Block
+	raw string
+}
+
+var (
+	heldMu     sync.Mutex
+	heldBlocks = map[*labnet.Node][]held{}
+)
+
+func hold(nd *labnet.Node, b *types.Block) {
+	raw, _ := b.MarshalText()
+	heldMu.Lock()
+	heldBlocks[nd] = append(heldBlocks[nd], held{b, string(raw)})
+	heldMu.Unlock()
+}
+
+// CheckHeld reports the held blocks of nd that changed after ProcessBlock had returned, and forgets them.
+func CheckHeld(nd *labnet.Node) []string {
+	heldMu.Lock()
+	hs := heldBlocks[nd]
+	delete(heldBlocks, nd)
+	heldMu.Unlock()
+	var out []string
+	for _, h := range hs {
+		raw, _ := h.b.MarshalText()
+		if string(raw) != h.raw {
+			hash := h.b.Hash()
+			out = append(out, fmt.Sprintf("block %s (height %d) was %d bytes when ProcessBlock returned and is %d bytes now: something kept writing to the caller's block", hash.String()[:8], h.b.Height, len(h.raw), len(raw)))
+		}
+	}
+	return out
+}
+
+func relayCall() Call {
+	return Call{"relay-held-blocks", func(nd *labnet.Node) string {
+		heldMu.Lock()
+		hs := append([]held(nil), heldBlocks[nd]...)
+		heldMu.Unlock()
+		for _, h := range hs {
+			h.b.MarshalText()
+		}
+		return ""
+	}}
+}
+
 func blockCall(w *chainlab.World, i int) Call {
 	return Call{"B:" + w.Names[i], func(nd *labnet.Node) string {
 		cp := *w.Blocks[i].Block
 		cp.SupLinks = nil
 		orphan, err := nd.Chain.ProcessBlock(&cp)
+		hold(nd, &cp)
+		return fmt.Sprintf("orphan=%v err=%v", orphan, err != nil)
+	}}
+}
+
+// blockSLCall delivers block i carrying header signatures of the given validators for src -> i.
+func blockSLCall(w *chainlab.World, i, src int, signers ...int) Call {
+	return Call{fmt.Sprintf("B:%s+sig%v", w.Names[i], signers), func(nd *labnet.Node) string {
+		cp := w.BlockWithLinks(chainlab.Event{Kind: chainlab.EvBlockSL, Block: i, Src: src, Signers: signers})
+		orphan, err := nd.Chain.ProcessBlock(cp)
+		hold(nd, cp)
 		return fmt.Sprintf("orphan=%v err=%v", orphan, err != nil)
 	}}
 }
@@ -99,6 +161,10 @@ func Build(thorough bool) []Scenario {
 		{"S7 parked best-changing votes replayed || orphan run crossing the next epoch boundary || reads", empty,
 			[]Call{B(a1), B(a2), B(a3), B(a4), V(0, 0, b2), V(1, 0, b2), V(2, 0, b2), B(b1), B(b2), B(b4), B(b5)},
 			[][]Call{{B(b3)}, {readsCall(w, b2)}}},
+		// a2 arrives carrying validator 0's signature; validator 1's vote for the same link is admitted while the
+		// caller still holds (and relays) the block it had delivered
+		{"S8 vote for a link the delivered block carries || relay of the delivered block || block", empty,
+			[]Call{B(a1)}, [][]Call{{blockSLCall(w, a2, 0, 0), V(1, 0, a2)}, {relayCall(), relayCall()}, {B(b1)}}},
 	}
 	// S3 needs spendable outputs: prelude built once with real goroutines (pass-through mode)
 	var err error
